@@ -5,7 +5,7 @@ import time
 from harness import common, l2tie, pool, scenarios
 
 
-MODEL_PROFILES = {'straight', 'branch', 'memory', 'storage', 'hash', 'log', 'loop', 'call', 'create', 'opgrid', 'callfail', 'valuecall', 'symtarget', 'corr', 'symloop', 'stackops'}
+MODEL_PROFILES = {'straight', 'branch', 'memory', 'storage', 'hash', 'log', 'loop', 'call', 'create', 'opgrid', 'callfail', 'valuecall', 'symtarget', 'corr', 'symloop', 'stackops', 'hashcond'}
 
 
 def _worker(task):
